@@ -517,9 +517,15 @@ theorem clVerifyWith_total {n : ℕ} (isPrime : Nat → Bool) (pk : PublicKey) (
     have hae := goExp_nonneg s.a s.e pk.n (by rw [hN]; exact_mod_cast (by omega : 0 < n)) (by omega)
     obtain ⟨r, hrr, _⟩ := representToBases_spec hn pk.r pk.params.Lm hr vals hlen
     rw [← hN] at hrr
-    simp only [Bool.not_true, Bool.false_eq_true, if_false, hae, hrr, deref, bind, Except.bind,
-      pure, Except.pure]
-    split <;> exact ⟨_, rfl⟩
+    cases hany : vals.any (negOversized pk.params.Lm) with
+    | true =>
+      simp only [Bool.not_true, Bool.false_eq_true, if_false, hae, representToPublicKey_of_any hany,
+        deref, bind, Except.bind, pure, Except.pure]
+      exact ⟨_, rfl⟩
+    | false =>
+      simp only [Bool.not_true, Bool.false_eq_true, if_false, hae, representToPublicKey_ok hany hrr,
+        deref, bind, Except.bind, pure, Except.pure]
+      split <;> exact ⟨_, rfl⟩
 
 /-- **`ConstructCredential` does not panic** when (1) `ProofS.Verify` does not, (2) every nil
     entry of `attributes` is a random-blind index of the builder, (3) there are enough bases,
@@ -684,6 +690,31 @@ theorem two_shares_lt (lm : ℕ) (a b : Int) (ha0 : 0 ≤ a) (hb0 : 0 ≤ b) (ha
     simp only [Nat.add_sub_cancel] at ha hb
     rw [pow_succ]
     omega
+
+/-- the guard of `RepresentToPublicKey` passes on the holder's block when it passes on the
+    issuer's block: the secret and the sums of the shares are non-negative, the other messages
+    are the same. -/
+theorem SharesCombine.any_negOversized {lm : ℕ} {secret : Int} {mUser : List (Int × Int)}
+    {msI msH : List Int} (h : SharesCombine lm secret mUser msI msH)
+    (hI : msI.any (negOversized lm) = false) : msH.any (negOversized lm) = false := by
+  rw [any_negOversized_eq_false_iff] at hI ⊢
+  intro m hm
+  obtain ⟨j, hj⟩ := List.getElem?_of_mem hm
+  rcases Nat.eq_zero_or_pos j with rfl | hpos
+  · rw [h.sec] at hj
+    obtain rfl := Option.some.inj hj
+    have := h.sec_nonneg
+    omega
+  · by_cases hex : ∃ kv ∈ mUser, kv.1 = (j : Int)
+    · obtain ⟨kv, hkv, heq⟩ := hex
+      obtain ⟨_, _, h2, _, mi, hmi0, _, _, hH⟩ := h.blind kv hkv
+      have : kv.1.toNat = j := by omega
+      rw [this, hj] at hH
+      obtain rfl := Option.some.inj hH
+      omega
+    · have := h.other j hpos (fun kv hkv heq => hex ⟨kv, hkv, heq⟩)
+      rw [hj] at this
+      exact hI m (List.mem_of_getElem? this.symm)
 
 /-- the holder's block is the issuer's block times `R_0^secret · ∏ R_i^{mUser_i}`. -/
 theorem repU_shares (lm : ℕ) (bases : List Int) (secret : Int) (mUser : List (Int × Int))
@@ -884,6 +915,7 @@ theorem sign_commitment_verifies_aux (isPrime : Nat → Bool) (pk : PublicKey) (
       (by rw [hN] at hz1 ⊢; exact hz1) hz hs hr (isUnit_of_cast hac) hpu hlen
       (by rw [he]; exact hint) (by rw [he]; exact hprime)
     rw [hb1, hb2.mpr]
+    refine ⟨hsh.any_negOversized (clSignWith_some_guard h), ?_⟩
     simp only
     rw [he, hv, repU_shares pk.params.Lm pk.r secret mUser msI msH hsh hlen]
     exact issuance_algebra hsigned
@@ -1006,6 +1038,40 @@ theorem sharesCombine_msgs (lm : ℕ) (secret : Int) (attributes : List (Option 
         obtain ⟨kv, hm, heq⟩ := hh.nil_blind k hk
         exact absurd (by rw [heq]; push_cast; ring) (hne kv hm)
 
+/-- the block the issuer signs passes the guard of `RepresentToPublicKey` when none of the supplied
+    attributes is negative and longer than `lm` bits: the first message is `0` and the issuer's
+    shares at the random-blind positions are non-negative. -/
+theorem issuerMsgs_guard (lm : ℕ) (attributes : List (Option Int))
+    (mIssuer : List (Int × Option Int)) (mUser : List (Int × Int))
+    (hh : HonestShares lm attributes mIssuer mUser)
+    (hattr : ∀ a, some a ∈ attributes → ¬ (a < 0 ∧ bitLen a > lm)) :
+    ∀ m ∈ issuerMsgs attributes mIssuer, ¬ (m < 0 ∧ bitLen m > lm) := by
+  intro m hm
+  obtain ⟨j, hj⟩ := List.getElem?_of_mem hm
+  cases j with
+  | zero =>
+    have h0 : (issuerMsgs attributes mIssuer)[0]? = some 0 := rfl
+    rw [h0] at hj
+    obtain rfl := Option.some.inj hj
+    omega
+  | succ k =>
+    rw [issuerMsgs_succ] at hj
+    cases hk : attributes[k]? with
+    | none => rw [hk] at hj; cases hj
+    | some o =>
+      rw [hk] at hj
+      cases o with
+      | some a =>
+        obtain rfl : a = m := Option.some.inj hj
+        exact hattr a (List.mem_of_getElem? hk)
+      | none =>
+        obtain ⟨kv, hkv, heq⟩ := hh.nil_blind k hk
+        obtain ⟨_, _, _, _, _, mi, b1, b2, _⟩ := hh.blind kv hkv
+        have hm' : issuerShare mIssuer ((k : Int) + 1) = m := Option.some.inj hj
+        rw [← heq, issuerShare, b1] at hm'
+        have : mi = m := hm'
+        omega
+
 /-- **the honest `ConstructCredential`.** -/
 theorem construct_honest_aux (pk : PublicKey) (order : Int) (b : CredBuilder)
     (attributes : List (Option Int)) (mIssuer : List (Int × Option Int)) (v e eCommit : Int)
@@ -1085,14 +1151,16 @@ theorem construct_honest_aux (pk : PublicKey) (order : Int) (b : CredBuilder)
   rfl
 
 /-- the issuer's signing computation succeeds on the user commitment (for `e` invertible modulo
-    `order`). -/
+    `order`), on a block without a negative message longer than `Lm` (`RepresentToPublicKey`
+    refuses such a block: nothing is signed). -/
 theorem clSignWith_commitment_isSome (pk : PublicKey) (order : Int) (secret vPrime : Int)
     (mUser : List (Int × Int)) (kp : Option Int) (U : Int) (ms : List Int) (v e : Int)
     (hk : pk.InGroup order)
     (hP : ∀ p, kp = some p → goExp p order pk.n = some 1)
     (hU : userCommitment pk secret vPrime mUser kp = .ok U)
     (hkeys : ∀ kv ∈ mUser, 0 ≤ kv.1 ∧ kv.1 < pk.r.length)
-    (hlen : ms.length ≤ pk.r.length) (he : Int.gcd e order = 1) :
+    (hlen : ms.length ≤ pk.r.length)
+    (hneg : ∀ m ∈ ms, ¬ (m < 0 ∧ bitLen m > pk.params.Lm)) (he : Int.gcd e order = 1) :
     ∃ sig, clSignWith pk order U ms v e = some sig := by
   obtain ⟨hn, hz0, hz1, ho, hb⟩ := hk
   obtain ⟨n, hN⟩ : ∃ n : ℕ, pk.n = n := ⟨pk.n.toNat, (Int.toNat_of_nonneg (by omega)).symm⟩
@@ -1114,7 +1182,8 @@ theorem clSignWith_commitment_isSome (pk : PublicKey) (order : Int) (secret vPri
     hkeys hpu
   rw [hU] at hU'
   obtain rfl := Except.ok.inj hU'
-  exact clSignWith_isSome pk order U ms v e hN hn' hz hs hr (isUnit_of_cast Uc) hlen ho0 he
+  exact clSignWith_isSome pk order U ms v e hN hn' hz hs hr (isUnit_of_cast Uc) hlen
+    (any_negOversized_eq_false_iff.mpr hneg) ho0 he
 
 /-- a nil attribute that is not a random-blind index is dereferenced after the loop: the Go
     code panics (when nothing made it return earlier). -/
